@@ -67,6 +67,7 @@ ExplainsImplAssign(e) ==
         /\ e.operands_unchanged
 ExplainsImplBinFromAssign(e) ==
     /\ e.calls = 1 /\ e.lclones = 0 /\ e.rclones = 0 /\ e.result = "assigned(L,R)"
+    /\ e.operands_unchanged                   \* a right operand received by reference is left as it was
 
 (***************************************************************************)
 (* C10                                                                     *)
